@@ -268,6 +268,7 @@ func (m *locker) try(ctx context.Context, cancel context.CancelFunc, name string
 	acquired := int32(0)
 	failures := int32(0)
 	lost := int32(0)
+	gaveup := int32(0)
 
 	done := make(chan struct{})
 	monitoring := func(err error, key string, deadline time.Time, csc chan struct{}) {
@@ -297,7 +298,9 @@ func (m *locker) try(ctx context.Context, cancel context.CancelFunc, name string
 		}
 		if !errors.Is(err, ErrNotLocked) {
 			<-ctx.Done()
-			_ = m.script(context.Background(), delkey, key, val, deadline)
+			if m.script(context.Background(), delkey, key, val, deadline) == nil {
+				atomic.StoreInt32(&gaveup, 1)
+			}
 		}
 		if released := atomic.AddInt32(&released, 1); released >= m.majority {
 			cancel()
@@ -308,6 +311,17 @@ func (m *locker) try(ctx context.Context, cancel context.CancelFunc, name string
 						delete(m.gates, name)
 					}
 				} else if m.gates != nil {
+					select {
+					case g.ch <- struct{}{}:
+					default:
+					}
+				}
+				m.mu.Unlock()
+			} else if released == m.totalcnt && atomic.LoadInt32(&gaveup) == 1 {
+				// A failed try gave up keys it had taken. Waiters of this locker that saw them held get no
+				// invalidation for them under NOLOOP, so hand the gate on as a released lock does.
+				m.mu.Lock()
+				if g.w > 1 && m.gates != nil {
 					select {
 					case g.ch <- struct{}{}:
 					default:
@@ -411,7 +425,19 @@ func (m *locker) WithContext(src context.Context, name string) (context.Context,
 		}
 		select {
 		case <-src.Done():
-			m.removegate(g, name)
+			m.mu.Lock()
+			if g.w--; g.w == 0 {
+				if m.gates[name] == g {
+					delete(m.gates, name)
+				}
+			} else if m.gates != nil {
+				// this waiter may have swallowed a wake-up meant for the others: hand it on
+				select {
+				case g.ch <- struct{}{}:
+				default:
+				}
+			}
+			m.mu.Unlock()
 			return nil, nil, src.Err()
 		case <-g.ch:
 		case <-timeout:
